@@ -56,7 +56,16 @@ def apply(nc, a):
     elif op == "remove_name_oct":
         nc.remove_note(txt(a["n"]), a["o"])
     elif op == "remove_obj":
-        nc.remove_note(Note(txt(a["n"]), a["o"]))
+        # the three ways of taking one Note object out (chosen by the size of the container, so that a case is reproducible)
+        form = len(nc.notes) % 3
+        if form == 0:
+            nc.remove_note(Note(txt(a["n"]), a["o"]))
+        elif form == 1:
+            nc.remove_notes(Note(txt(a["n"]), a["o"]))
+        else:
+            r = nc - Note(txt(a["n"]), a["o"])
+            if r is not nc:
+                raise Shape("- must return the container")
     elif op == "remove_list":
         nc.remove_notes([rm_item(i) for i in a["items"]])
     elif op == "minus_list":
